@@ -263,3 +263,11 @@ def decoded_ops(ops):
         else:
             out.append({"op": op["op"]})
     return out
+
+
+def skipped_if_too_big(exp, w=None):
+    """Programs whose rendering explodes combinatorially are not executed (no verdict either way); returns a result."""
+    if exp["result"][0] != "toobig":
+        return None
+    return {"violations": [], "key": None, "nontrivial": False, "stats": {"skipped:program_too_large": 1},
+            "digest": "toobig"}
